@@ -296,6 +296,18 @@ func (x *Exec) release(cfg *Config, mv Val, pos token.Pos) {
 		return
 	}
 	if ld := x.lockDeclFor(tv.Org); ld != nil {
+		if x.c != nil && x.c.Options["ghostsets-at-unlock"] == "true" && !cfg.ghostDone && !cfg.panicking {
+			// the contract's ghost updates belong to the critical section:
+			// apply them before the lock invariant is checked
+			env := x.entryEnv(cfg)
+			env.old = cfg.old
+			env.frame = nil
+			pre := cfg.st.clone()
+			for _, gs := range x.c.GhostSets {
+				x.applyGhostSetIn(cfg, env, gs, pre)
+			}
+			cfg.ghostDone = true
+		}
 		x.leaveSection(cfg, ld, tv.Org, "unlock", pos)
 		for i, h := range cfg.heldLocks {
 			if h.ld == ld && h.o.Base.S == tv.Org.Base.S {
@@ -629,8 +641,24 @@ func (x *Exec) recvOp(cfg *Config, f *Frame, i *ssa.UnOp) Val {
 		x.abortWatcher(cfg, f)
 		return abortedVal{}
 	}
-	unsupported("blocking channel receive")
-	return nil
+	// a blocking receive returns when the channel is ready: a context's Done
+	// channel when the context is done (now, after other goroutines ran); any
+	// other channel when a value was sent or it was closed - recorded as the
+	// ghost fact recvready(ch)
+	x.interfere(cfg)
+	x.usedTrusted["blocking receive: returns when the channel is ready (context done / value sent or channel closed)"] = true
+	if strings.HasPrefix(ch.S, "(ctx.donechan ") {
+		ctx := Term{ch.S[len("(ctx.donechan ") : len(ch.S)-1], SInt}
+		cfg.st.assume(x.doneNow(cfg.st, ctx))
+	} else {
+		rr := x.heapGet(cfg.st, "$recvready", SArr(SInt, SBool))
+		cfg.st.heap["$recvready"] = Store(rr, ch, True)
+	}
+	if i.CommaOk {
+		tup := i.Type().(*types.Tuple)
+		return TupV{x.symbolicOf(cfg.st, x.d.FreshName("recv"), tup.At(0).Type()), TV{T: x.d.Fresh("recvok", SBool)}}
+	}
+	return x.symbolicOf(cfg.st, x.d.FreshName("recv"), i.Type())
 }
 
 type abortedVal struct{}
